@@ -15,7 +15,9 @@ namespace C05
 ends cleanly, or rejects `x` — decoding the first `k` bytes ends with `InputStreamBytesDepletedError`, or silently when the
 cut falls exactly where the run on `x` starts its next message; it has then shown exactly the events the run on `x` emits up
 to byte count `k` (the fields that are complete within the prefix, in order), minus the announcement of the message that would
-start at the cut.  (That a stream ends silently *only* at a message boundary is `AcceptIff.stream_accept_iff`.) -/
+start at the cut.  (`AcceptIff.stream_accept_iff`: the stream *walker* ends cleanly iff the input is a sequence of well-formed
+exchanges, and then the pump ends silently — `stream_run`; that the pump ends silently *only* then is not a theorem: it is
+monitored on the real code and tied by correspondence.) -/
 theorem c05_stream_truncated (x : List Byte) (k : Nat) (hk : k < consumed Generated.msgTables .stream x) :
     ((marshalRun true Generated.msgTables .stream (x.take k)).outcome = .depleted ∨
      (marshalRun true Generated.msgTables .stream (x.take k)).outcome = .silent) ∧
